@@ -291,6 +291,20 @@ def c05_step(op, out, before, after):
         if bn is not None and an is not None:
             if (bn.name, bn.hook, [tree_sig(k) for k in bn.kids]) != (an.name, an.hook, [tree_sig(k) for k in an.kids]):
                 bad.append("'%s': name, hook or children of the addressed setting changed" % op)
+        # an assignment that reports success stores the value that was assigned (same-kind and int<->int64 cases)
+        if cmd in ("set", "eset") and an is not None and (r == "i1" or (cmd == "eset" and r.startswith("n") and r != "n-")):
+            kind, val = f[1], f[-1]
+            want = None
+            if kind in "il" and int(an.ty) in (2, 3) and re.fullmatch(r"-?[0-9]+", val):
+                want = ("i" if int(an.ty) == 2 else "l") + str(int(val))
+            elif kind == "b" and int(an.ty) == 6 and val in ("0", "1"):
+                want = "b" + val
+            elif kind == "s" and int(an.ty) == 5 and val.startswith("h"):
+                want = "s" + val
+            elif kind == "f" and int(an.ty) == 4 and val.startswith("x"):
+                want = "f" + val[1:]
+            if want is not None and an.val != want:
+                bad.append("'%s' reported success but the setting now holds %s (assigned: %s)" % (op, an.val, want))
     elif cmd in ("clear",):
         if b_attr != a_attr:
             bad.append("clear changed attributes %s -> %s" % (b_attr, a_attr))
@@ -1343,7 +1357,7 @@ LEXEMES = [b"true", b"TRUE", b"fAlSe", b"truex", b"a", b"a-b", b"x_1*", b"*", b"
            b".", b"-.", b"+.5e3", b".5e-3", b"1e5", b"1E+5", b"1.5e", b"1e", b"1.e5", b".e5", b"1e999", b"-1e999", b"1e-999", b"1.7976931348623157e308",
            b"\"\"", b"\"a\"", b"\"a\\nb\"", b"\"\\a\\b\\v\\f\\r\\t\"", b"\"\\x41\\X7e\"", b"\"\\q\\\"", b"\"\\\\\"", b"\"\\x4\"",
            b"\"line1\nline2\"", b"=", b":", b",", b";", b"{", b"}", b"[", b"]", b"(", b")", b"#c\n", b"//c\n", b"/*c*/", b"/* a\n b */", b"/*",
-           b"\x07", b"\x08", b"\x0b", b"\x0c", b"\r", b"$", b"@", b"\x80", b"\xff", b"\x7f", b"!", b"@include", b"include",
+           b"\x07", b"\x08", b"\x0b", b"\x0c", b"\r", b"$", b"@", b"\x80", b"\xff", b"\x7f", b"!", b"@include", b"include", b"/**/", b"/***/", b"/* x **/", b"/* a * / **/ b", b"/*/ */",
            b"\n@include \"no\nsuch\"\n", b"\n@include \"a\\\\b\\\"c\"\n", b"\n@include \"\n\n\"", b"\n@include \"x.cfg\" y = 1;"]
 SEPS_LEX = [b"", b"", b" ", b"\t", b"\n", b" \n ", b";", b","]
 SOUP = b"0123456789+-.eExXLlTRUEtrufalsFabc_*\"\\ \t\n=:,;{}[]()#/*@\x07\x0b$\xe9"
@@ -1439,6 +1453,13 @@ REGISTRY["C18"] = dict(module="Properties_C18", run=run_c18,
                        extra_obligations=["all_closed_checked", "all_start_checked", "actions_as_documented"])
 
 
+C03_PATHO = [b"a = \"unterminated", b"/* unterminated", b"a = \"x\\", b"@include \"", b"@include \"nosuch\"\n",
+                            b"@include \"adir\"\n", b"@include \"self.cfg\"\n", b"a = [1, \"x\"];", b"a=1;a=2;", b"a = 1e999;",
+                            b"@include \"a\\qb\"\n", b"@include \"a\nb\"\n", b"x = 1;\n@include \"inc\n.cfg\"\ny = 2;\n", b"\"", b"\\", b"a = (((((", b"a = 99999999999999999999;", b"a = 0x;"]
+C03_PATHO += [b"@include \"inc.cfg\"\n@include \"inc.cfg\"\n", b"a = 1;\n@include \"inc.cfg\"\nb = 2;\n@include \"inc2.cfg\"\nc = 3;\n",
+              b"@include \"two.cfg\"\n", b"@include \"inc.cfg\"\n@include \"nosuch\"\n", b"@include \"inc.cfg\"\n@include \"inc2.cfg\"\n@include \"two.cfg\"\nq = [1, 2.5];\n"]
+
+
 def c03_inputs(rng, n):
     res = []
     for i in range(n):
@@ -1452,9 +1473,7 @@ def c03_inputs(rng, n):
             op, cl = rng.choice([(b"a={", b"}"), (b"(", b")"), (b"a=[", b"]"), (b"a=(", b");")])
             t = (b"x=" if op == b"(" else b"") + op * d + (cl * rng.choice([0, d, d - 1]))
         elif k == 3:
-            t = rng.choice([b"a = \"unterminated", b"/* unterminated", b"a = \"x\\", b"@include \"", b"@include \"nosuch\"\n",
-                            b"@include \"adir\"\n", b"@include \"self.cfg\"\n", b"a = [1, \"x\"];", b"a=1;a=2;", b"a = 1e999;",
-                            b"@include \"a\\qb\"\n", b"@include \"a\nb\"\n", b"x = 1;\n@include \"inc\n.cfg\"\ny = 2;\n", b"\"", b"\\", b"a = (((((", b"a = 99999999999999999999;", b"a = 0x;"])
+            t = C03_PATHO[(i // 8) % len(C03_PATHO)]          # every pathological input, in turn
         elif k == 4:
             t = gen_text.rand_config(rng, size=rng.choice([500, 3000]))      # long valid input
         elif k == 5:
@@ -1498,7 +1517,8 @@ def run_c03(ctx):
         ins = c03_inputs(ctx.rng, 480 if ctx.tier == "quick" else 12000)
         cases = []
         setup = ["init", "fs dir %s" % hx(b"adir"), "fs put %s %s" % (hx(b"self.cfg"), hx(b"@include \"self.cfg\"\n")),
-                 "fs put %s %s" % (hx(b"inc.cfg"), hx(b"z = 1;\n"))]
+                 "fs put %s %s" % (hx(b"inc.cfg"), hx(b"z = 1;\n")), "fs put %s %s" % (hx(b"inc2.cfg"), hx(b"y = \"s\";\n")),
+                 "fs put %s %s" % (hx(b"two.cfg"), hx(b"@include \"inc.cfg\"\nw = 2;\n@include \"inc2.cfg\"\n"))]
         for i, t in enumerate(ins):
             entry = ["reads", "readst", "readf"][i % 3]
             if entry == "reads" and b"\0" in t:
